@@ -468,6 +468,12 @@ class FieldTypeConstraint(Constraint):
         elif self.type == "referencePath"and not JSONPathChecker().is_reference_path(value):
              self.report(path, value, "a Reference Path", problems)
         elif self.type == "timestamp":
+            # Only a (non-empty) string can be a timestamp, any other JSON
+            # value is reported, like a malformed string, not sliced.
+            if not isinstance(value, str) or len(value) == 0:
+                self.report(path, value, "an RFC3339 timestamp", problems)
+                return
+
             # Preprocess RFC3339 into template strptime format
             if value[-1] == "Z":
                 date = value[:-1]
